@@ -349,7 +349,9 @@ def run(ctx):
                 seqs += allseq[: (60 if ctx.tier == "quick" else 400)]
             for ops in seqs:
                 check_ops(ctx, name, layout, ops, base)
-        size_sets = list(itertools.product(range(0, 3 if ctx.tier == "quick" else 4), repeat=2)) + [(1, 0, 2), (0, 0, 0), (2, 2, 2), (3, 0, 1)]
+        # every split of up to 4 members with 0..2 trees each (thorough: 0..3): empty members in every position, runs of empty members
+        top = 3 if ctx.tier == "quick" else 4
+        size_sets = [t for m in (2, 3, 4) for t in itertools.product(range(0, top), repeat=m)] + [(3, 0, 1), (1, 2, 0, 0, 3, 1), (0, 0, 1, 0, 2, 0)]
         for sizes in size_sets:
             check_chain(ctx, sizes, base)
         check_populations(ctx, base)
@@ -358,7 +360,7 @@ def run(ctx):
         check_same(ctx, base)
         ctx.rule("directory layouts {flat, nested, single, empty, mixed} x operation sequences (all of length<=1, sampled length 2.." + str(depth) +
                  "; ALL histories of length 2.." + str(depth) + " over the access routes index / negative index / slice / reversed slice / Population iteration / "
-                 "container iteration (whole, partial) / Population.map in a worker process / PopulationTransform) with a Tree.from_swc call counter checked after every step; chains of 2-3 populations with 0-3 members; two-directory intersection; map with 2 workers. "
+                 "container iteration (whole, partial) / Population.map in a worker process / PopulationTransform) with a Tree.from_swc call counter checked after every step; chains of 2-4 populations with 0-2 (thorough: 0-3) trees each, all splits, and two 6-member chains with runs of empty members; two-directory intersection; map with 2 workers. "
                  "filter_population with 4 predicates; check_same on equal / different directory pairs. "
                  "Non-trivial = layout with >=1 file and >=1 operation", exhaustive=False)
     finally:
